@@ -157,15 +157,46 @@ impl Prop for C10 {
                 };
                 one.push((a, a2, b, col));
             }
-            (st, one)
+            // the crate-level convenience functions are routes too: each equals the configuration it is documented to wrap
+            let mut conv: Vec<String> = Vec::new();
+            for w in ws2.iter().take(2) {
+                let e = |r: Result<String, html2text::Error>| -> Result<String, &'static str> { r.map_err(|e| err_class(&format!("{e:?}"))) };
+                let a = e(html2text::from_read(&html[..], *w));
+                let b = e(config::plain().string_from_read(&html[..], *w));
+                if a != b {
+                    conv.push(format!("width {w}: from_read {:?} != config::plain().string_from_read {:?}", a, b));
+                }
+                let a = html2text::from_read_rich(&html[..], *w).map(|l| format!("{:?}", l)).map_err(|e| err_class(&format!("{e:?}")));
+                let b = config::rich().lines_from_read(&html[..], *w).map(|l| format!("{:?}", l)).map_err(|e| err_class(&format!("{e:?}")));
+                if a != b {
+                    conv.push(format!("width {w}: from_read_rich != config::rich().lines_from_read"));
+                }
+                let a = e(html2text::from_read_with_decorator(&html[..], *w, TrivialDecorator::new()));
+                let b = e(config::with_decorator(TrivialDecorator::new()).string_from_read(&html[..], *w));
+                if a != b {
+                    conv.push(format!("width {w}: from_read_with_decorator(Trivial) {:?} != with_decorator(Trivial).string_from_read {:?}", a, b));
+                }
+                let c = match html2text::parse(&html[..]) {
+                    Ok(tree) => e(config::with_decorator(TrivialDecorator::new()).render_to_string(tree, *w)),
+                    Err(x) => Err(err_class(&format!("{x:?}"))),
+                };
+                if c != b {
+                    conv.push(format!("width {w}: parse() + render_to_string {:?} != with_decorator(Trivial).string_from_read {:?}", c, b));
+                }
+            }
+            (st, one, conv)
         });
-        let (st, one) = match res {
+        let (st, one, conv) = match res {
             Ok(x) => x,
             Err(o) => {
                 out.push(viol(format!("a route did not return: {}", o.short())));
                 return out;
             }
         };
+        if let Some(m) = conv.first() {
+            out.push(viol(m.clone()));
+            return out;
+        }
         for (i, w) in ws.iter().enumerate() {
             let (a, a2, b, col) = &one[i];
             if a != a2 {
